@@ -525,19 +525,36 @@ def r2(prog: Program, chk: Check) -> None:
     kw = kw_of(c)
     ok_axis = isinstance(kw.get("axis"), ast.Constant) and kw["axis"].value == 0
     ok_inv = isinstance(kw.get("return_inverse"), ast.Constant) and kw["return_inverse"].value is True
-    a0 = c.args[0]
-    ok_T = isinstance(a0, ast.Attribute) and a0.attr == "T" or \
-        (isinstance(a0, ast.Call) and (dotted(a0.func) or "").endswith("transpose"))
-    rounded = False
-    if ok_T:
-        base = a0.value if isinstance(a0, ast.Attribute) else a0.args[0]
-        if isinstance(base, ast.Name):
-            nid = du.node_of(c)
-            for d in du.reaching(nid, base.id):
-                if d.value is not None and "round" in norm(d.value):
-                    rounded = True
+    from oqv.dataflow import expand as _expand
+    a0 = _expand(du, du.node_of(c), c.args[0], depth=4)       # temporaries written out
+
+    def _transposed(e, depth=0):
+        """one transposition on the way from the key list to the argument (round(X.T) and
+        round(X).T are the same matrix)"""
+        if isinstance(e, ast.Attribute) and e.attr == "T":
+            return True
+        if isinstance(e, ast.Call) and (dotted(e.func) or "").endswith("transpose"):
+            return True
+        if isinstance(e, ast.Call) and isinstance(e.func, ast.Attribute) \
+                and e.func.attr in ("round", "around", "round_") and depth < 2:
+            # np.round(X, ..) or X.round(..)
+            inner = e.args[0] if isinstance(e.func.value, ast.Name) and e.func.value.id in ("np", "numpy") \
+                and e.args else e.func.value
+            return _transposed(inner, depth + 1)
+        return False
+    ok_T = _transposed(a0)
+    rounded = any(isinstance(x, ast.Call) and isinstance(x.func, (ast.Attribute, ast.Name))
+                  and (x.func.attr if isinstance(x.func, ast.Attribute) else x.func.id)
+                  in ("round", "around", "round_") for x in ast.walk(a0))
     sub_ok = any(isinstance(x, ast.Subscript) and x.value is c and isinstance(x.slice, ast.Constant)
                  and x.slice.value == 1 for x in walk_local(u.node))
+    if not sub_ok:
+        # `_, inverse = np.unique(...)`: position 1 of the result, and that is what is returned
+        picked = {d.name for d in du.defs if d.value is c and d.sel == (("idx", 1),)}
+        rets = [r for r in walk_local(u.node) if isinstance(r, ast.Return) and r.value is not None]
+        sub_ok = bool(picked) and bool(rets) and all(
+            isinstance(r.value, ast.Name) and r.value.id in picked
+            and all(dd.value is c for dd in du.reaching(du.node_of(r), r.value.id)) for r in rets)
     ok = ok_axis and ok_inv and ok_T and rounded and sub_ok
     chk.add("R2", u, norm(c), ok,
             "rows of the transposed (index x key) matrix are grouped" if ok else
